@@ -128,7 +128,11 @@ ParseMidx(b) ==
                                    idsAt == ChunkOfs(b, kl)
                                    offAt == ChunkOfs(b, ko)
                                    lofAt == IF kg = -1 THEN 0 ELSE ChunkOfs(b, kg)
-                               IN IF idsAt + n * HashLen > Len(b) \/ offAt + n * 8 > Len(b) THEN BadMidx
+                               IN IF \/ idsAt + n * HashLen > Len(b) \/ offAt + n * 8 > Len(b)
+                                     \* an escaped offset must index an entry of the large-offset chunk that lies inside the file
+                                     \/ \E i \in 1..n : LET p == offAt + (i - 1) * 8 + 4 IN
+                                                           kg # -1 /\ HighBit(b, p) /\ (Len(b) < lofAt + 8 \/ Low31(b, p) > (Len(b) - lofAt - 8) \div 8)
+                                  THEN BadMidx
                                   ELSE [ok |-> TRUE, n |-> n, fan |-> fan,
                                         ids |-> [i \in 1..n |-> Slice(b, idsAt + (i - 1) * HashLen, HashLen)],
                                         packs |-> [i \in 1..n |-> Slice(b, offAt + (i - 1) * 8, 4)],
